@@ -187,6 +187,9 @@ impl Monitor for C01 {
     fn run_case(&mut self, idx: u64, obs: &mut Obs) {
         self.one(idx, obs);
     }
+    fn boot_mut(&mut self) -> Option<&mut Xstate> {
+        Some(&mut self.boot)
+    }
     fn describe(&mut self, idx: u64) -> String {
         let c = gen_case("C01", self.seed, idx);
         format!("[{}] {}", c.profile, c.rendered.src)
